@@ -9,13 +9,14 @@ import (
 
 // Env is the context a specification expression is translated in.
 type Env struct {
-	vc     *VC
-	st     *State
-	old    *State
-	vars   map[string]Term
-	pkg    *types.Package
-	parent *Env
-	states map[string]*State // named states ("$iter": start of the current loop iteration)
+	vc      *VC
+	st      *State
+	old     *State
+	vars    map[string]Term
+	pkg     *types.Package
+	parent  *Env
+	states  map[string]*State // named states ("$iter": start of the current loop iteration)
+	existed string            // at a call site: the predicate "existed before this call" that fresh()/isold() of the callee's contract refer to
 }
 
 type xlateErr string
@@ -25,7 +26,18 @@ func (e *Env) fail(f string, a ...any) {
 }
 
 func (e *Env) child() *Env {
-	return &Env{vc: e.vc, st: e.st, old: e.old, vars: map[string]Term{}, pkg: e.pkg, parent: e}
+	return &Env{vc: e.vc, st: e.st, old: e.old, vars: map[string]Term{}, pkg: e.pkg, parent: e, existed: e.existed}
+}
+
+// existedPred: the predicate fresh()/isold() are relative to ("is_old": existed when the function
+// under verification was entered).
+func (e *Env) existedPred() string {
+	for x := e; x != nil; x = x.parent {
+		if x.existed != "" {
+			return x.existed
+		}
+	}
+	return "is_old"
 }
 
 func (e *Env) lookup(name string) (Term, bool) {
@@ -794,7 +806,15 @@ func (e *Env) call(x *ECall) Term {
 		return vc.makeIface(a)
 	case "fresh":
 		a := e.tr(x.Args[0])
-		return Term{S: and(sx(">", a.S, "0"), not(sx("is_old", a.S))), Sort: "Bool"}
+		return Term{S: and(sx(">", a.S, "0"), not(sx(e.existedPred(), a.S))), Sort: "Bool"}
+	case "$existed":
+		// $existed(x): x existed when the range statement of the enclosing rangefunc clause started
+		pt, ok := e.lookup("$existed")
+		if !ok {
+			e.fail("$existed() is only available in rangefunc clauses")
+		}
+		a := e.value(e.tr(x.Args[0]))
+		return Term{S: sx(pt.S, a.S), Sort: "Bool"}
 	case "freevar":
 		// freevar(i): the current value of the i-th captured variable of the function under contract
 		// (for captured variables without a usable name, e.g. the enclosing function's unnamed result)
@@ -809,7 +829,7 @@ func (e *Env) call(x *ECall) Term {
 		return vc.load(e.st, t)
 	case "isold":
 		a := e.tr(x.Args[0])
-		return Term{S: sx("is_old", a.S), Sort: "Bool"}
+		return Term{S: sx(e.existedPred(), a.S), Sort: "Bool"}
 	case "calls":
 		a := e.tr(x.Args[0])
 		if a.T == nil {
@@ -850,6 +870,15 @@ func (e *Env) call(x *ECall) Term {
 	case "sref":
 		a := e.value(e.tr(x.Args[0]))
 		return Term{S: sx("sl_ref", a.S), Sort: "Int"}
+	case "slot":
+		// slot(s, i): the position of element i in the backing array of slice s (useful as a trigger that
+		// does not depend on which version of the heap the element is read from)
+		a := e.value(e.tr(x.Args[0]))
+		i := e.tr(x.Args[1])
+		if a.Sort != "Slice" {
+			e.fail("slot() needs a slice")
+		}
+		return Term{S: sx("sl_idx", a.S, i.S), Sort: "Int"}
 	case "soff":
 		a := e.value(e.tr(x.Args[0]))
 		return Term{S: sx("sl_off", a.S), Sort: "Int"}
